@@ -260,6 +260,15 @@ example : verdict (exec [0] ioUringDrop 20 ⟨[.ok 0, .ok 0, .ok 0, .ok 0], [fal
 example : verdict (exec [] ioUringSetup 20 ⟨[.ok 5, .ok 4096, .ok 8192, .err 12, .ok 0, .ok 0, .ok 0], [false], none⟩)
     = ⟨true, false, 0, [], [], [], []⟩ := by decide +kernel
 example : verdict (exec [] ioUringSetup 20 ⟨[.ok 5, .ok 4096, .ok 8192], [true], none⟩) = ⟨true, true, 1, [], [], [], []⟩ := by decide +kernel
+/-- receiving descriptors: three installed by the kernel and all three handed out is clean (they get the lowest free
+    numbers, in order); an API that surfaces none of them (the iterator rejecting a valid SCM_RIGHTS message) is rejected by
+    the checker and the machine shows the three left open; a failing recvmsg installs nothing -/
+example : verdict (exec [] recvmsgRights 20 ⟨[.ok 5], [true, true, true, false], none⟩) = ⟨true, true, 3, [], [], [], []⟩ := by decide +kernel
+example : (execK [1, 2, 4] [] recvmsgRights 20 ⟨[.ok 5], [true, true, true, false], none⟩).2.nums.reverse = [0, 3, 5] := by decide +kernel
+example : chk [] (.sys "recvmsg" (.opensL [0, 1, 2]) (ok []) err) = false := by decide
+example : (verdict (exec [] (.sys "recvmsg" (.opensL [0, 1, 2]) (ok []) err) 10 ⟨[.ok 5], [], none⟩)).leaked = [2, 1, 0] := by decide
+example : verdict (exec [] recvmsgRights 20 ⟨[.err 4], [true, false], none⟩) = ⟨true, false, 0, [], [], [], []⟩ := by decide +kernel
+example : chk [] (.sys "recvmsg" (.opensL [0, 0]) (ok [0]) err) = false := by decide
 /-- the spawn child of the current code never returns: dup2 failing ends in `exits` -/
 example : (exec [] (spawn true allPipe [] 0) 100 ⟨[.ok 0, .ok 0, .ok 0, .ok 0, .ok 77], [], some ([.ok 0, .err 9, .ok 8], [])⟩).out = .exits := by
   decide +kernel
